@@ -1058,8 +1058,14 @@ class Data(Container, NetCDFHDF5, Files, core.Data):
                         else:
                             if step > 0:
                                 stop += 1
-                            else:
+                            elif stop:
                                 stop -= 1
+                            else:
+                                # Descending to element 0: a stop of
+                                # -1 would mean the last element, so
+                                # run off the start of the axis
+                                # instead.
+                                stop = None
 
                             y.append(slice(start, stop, step))
 
